@@ -14,7 +14,7 @@ func init() {
 	tb := []string{"neo-go v0.107.0 VM, ledger and native contracts are the trusted base", "contracts are compiled at check time from /repo/contracts"}
 	runner.Register(&runner.Check{
 		ID: "C04", Level: "exploration",
-		Rule:        "PRNG sequences of put / put(meta) / putNamed (3 names, default and explicit zone) / delete / setEACL over 3 owners and blobs with version-field lengths 0/1/7/127, re-puts of live ids, deletes of missing ids, puts after delete, name reuse, alias expiry (virtual time), signer classes {Alphabet, Majority, member, owner only, nobody}, committees 1/3/4/7; a registry model predicts success and notifications; after every block get/owner/alias/eACL for every id ever used plus unused and wrong-length ids, count, list and containersOf for every owner and the empty owner, NNS TXT records of every alias domain and a raw storage scan are compared with the model. distinct = (operation, signer class, reason/outcome, liveness, fee, committee size).",
+		Rule:        "PRNG sequences of put / put(meta) / putNamed (3 names, default and explicit zone) / delete / setEACL over 3 owners and blobs with version-field lengths 0/1/7/127, re-puts of live ids, deletes of missing ids, puts after delete, name reuse, alias expiry (virtual time), signer classes {Alphabet, Majority, member, owner only, nobody}, committees 1/3/4/7; a registry model predicts success and notifications; after every block get/owner/alias/eACL for every id ever used plus unused and wrong-length ids, count, list and containersOf for every owner and the empty owner, NNS TXT records of every alias domain and a raw storage scan are compared with the model. distinct = (operation, signer class, reason/outcome, liveness, fee, committee size). One container in five is 200, 252-257, 300, 1000 or 4000 bytes long (the stored record's length prefix changes at 253).",
 		Assumptions: append(tb, "records of an earlier alias after a re-put under a second name and roster/estimation keys of deleted containers are logged, not judged"),
 		Batches:     tier(96, 1024), Chunk: 4,
 		Floors: []string{"put-ok:put", "put-ok:putmeta", "put-ok:putnamed", "delete-ok", "setEACL-ok", "re-put-of-live-id", "put-refused:tombstoned", "delete-of-missing-id", "name-reused-after-delete", "put-refused:name-taken", "put-refused:no-alphabet-witness", "clock-jump-below-ten-years", "container-named-in-a-committee-owned-domain", "delete-refused:reserved-domain-without-committee"},
@@ -22,7 +22,7 @@ func init() {
 	})
 	runner.Register(&runner.Check{
 		ID: "C05", Level: "exploration",
-		Rule:        "Container puts with ContainerFee and ContainerAliasFee from {0,1,7,10^6} (changed by setConfig between puts), committees of 1/4/7, owner balance driven to {total-1,total,total+1,0,3*total,2^40} before each put, named and unnamed, owners who are Alphabet nodes themselves, repeated puts until the balance runs out; the multiset of TransferX events with container-fee details and the balance deltas from the Balance storage diff must equal N transfers of the fee; refusals must leave an empty diff. distinct = (operation, signer class, reason/outcome, liveness, fee, committee size).",
+		Rule:        "Container puts with ContainerFee and ContainerAliasFee from {0,1,7,10^6} (changed by setConfig between puts), committees of 1/4/7, owner balance driven to {total-1,total,total+1,0,3*total,2^40} before each put, named and unnamed, owners who are Alphabet nodes themselves, repeated puts until the balance runs out; the multiset of TransferX events with container-fee details and the balance deltas from the Balance storage diff must equal N transfers of the fee; refusals must leave an empty diff. distinct = (operation, signer class, reason/outcome, liveness, fee, committee size). Every fourth history re-elects the committee through NEO votes half-way, with no epoch tick in between: fees go to the new Alphabet nodes from then on.",
 		Assumptions: tb,
 		Batches:     tier(192, 2048), Chunk: 8,
 		Floors: []string{"paid-put:N1", "paid-put:N4", "paid-put:N7", "paid-put:named", "paid-put:unnamed", "paid-put:fee0", "fee-changed-between-puts", "refused-at-total-1", "accepted-at-total", "put-refused:insufficient-balance", "puts-until-balance-runs-out", "paid-put:named-reusing-a-freed-domain", "putNamed-without-a-name-with-a-zone", "committee-larger-than-the-validator-set"},
@@ -30,7 +30,7 @@ func init() {
 	})
 	runner.Register(&runner.Check{
 		ID: "C14", Level: "exploration",
-		Rule:        "Roster histories (vectors of 5..300 keys in two batches so the 2-byte counter crosses 127/128/255/256, 1-4 vectors, re-commits, empty commits, non-contiguous vector index, malformed ids/keys, unauthorised callers) compared in order through nodes()/replicasNumbers() and a raw scan of the pending prefix; signature matrices for REP 1..4 assembled from {honest, honest+noise, honest+junk lengths, one member repeated, malleated (r,n-s) twin, one short + duplicate, non-members, members of another vector, another message, short vector, missing vector} judged against an independent crypto/ecdsa oracle counting distinct members per vector; submitObjectPut with valid/expired/wrong-network meta maps. distinct = (operation, class, REP vector / size class, outcome).",
+		Rule:        "Roster histories (vectors of 5..300 keys in two batches so the 2-byte counter crosses 127/128/255/256, 1-4 vectors, re-commits, empty commits, non-contiguous vector index, malformed ids/keys, unauthorised callers) compared in order through nodes()/replicasNumbers() and a raw scan of the pending prefix; signature matrices for REP 1..4 assembled from {honest, honest+noise, honest+junk lengths, one member repeated, malleated (r,n-s) twin, one short + duplicate, non-members, members of another vector, another message, short vector, missing vector} judged against an independent crypto/ecdsa oracle counting distinct members per vector; submitObjectPut with valid/expired/wrong-network meta maps. distinct = (operation, class, REP vector / size class, outcome). Every other round also verifies between the announcement of the next roster and its commit (committed members count, announced keys and mixtures do not), right after the replacement (the other way round) and after a dropped announcement.",
 		Assumptions: append(tb, "positive control (must accept) only for matrices whose entries are all 64 bytes long"),
 		Batches:     tier(96, 768), Chunk: 4,
 		Floors: []string{"roster-crossing-256", "second-batch-for-a-vector", "re-commit", "empty-commit", "commit-with-null-replicas-and-pending-roster", "accepted-honest-matrix", "refused:duplicate-member", "refused:non-member", "refused:other-vector-member", "defect-in-one-vector-only", "roster-lists-a-key-twice", "signatures-of-an-earlier-vector's-members", "refused:other-message", "refused:short-vector", "refused:missing-vector", "refused:malleated-twin", "submitObjectPut-ok", "submitObjectPut-refused"},
